@@ -150,6 +150,26 @@ def run(tier):
             c.finding("c20:%s" % docgen.diff_class(d[0]), "written file differs from the document at %s: expected %s, got %s" % (d[0][0], json.dumps(d[0][1]), json.dumps(d[0][2])),
                       {"xml": xml, "model": m, "expected": exp, "got": got, "differences": d, "written": open(path).read()[:4000]})
         os.unlink(path)
+    # ---- the production zoo's accepted models: declarations with every type / statement / builtin and a template with every element kind;
+    # writing must not crash and must give well-formed XML (the comparison with ExpXml is for the DocGen universe)
+    import zoo
+    zjobs = [{"id": "z%d" % k, "entry": "xml_buffer", "text": xmlgen.render_xml(zm), "write_xml": os.path.join(wdir, "z%d.xml" % k), "structure": False} for k, (zn, zm) in enumerate(zoo.accepted_models())]
+    zres = vf.run_jobs(zjobs, c.run_dir, variant="asan", name="c20zoo")
+    for (zn, zm), j in zip(zoo.accepted_models(), zjobs):
+        r = zres[j["id"]]
+        if r.get("outcome") in ("signal", "timeout", "abnormal-exit") or r.get("sanitizer"):
+            c.finding("c20:crash:%s" % zn, "write_XML_file crashed (%s) on the accepted model %s" % (r.get("outcome") or "sanitizer report", zn), {"xml": j["text"], "stderr": (r.get("stderr") or r.get("sanitizer") or "")[:1500]})
+            continue
+        if r.get("main", {}).get("outcome") != "return" or r["dump"]["doc"]["errors"]:
+            raise vf.MachineryError("zoo model %s not accepted: %s" % (zn, json.dumps([e["msg"] for e in r.get("dump", {}).get("doc", {}).get("errors", [])])[:400]))
+        if r.get("write", {}).get("outcome") != "return":
+            c.finding("c20:throw:%s:%s" % (zn, r["write"].get("exc")), "write_XML_file threw %s on the accepted model %s" % (r["write"].get("exc"), zn), {"xml": j["text"]})
+            continue
+        try:
+            ET.parse(j["write_xml"])
+            ncmp += 1
+        except ET.ParseError as ex:
+            c.finding("c20:not-well-formed:%s" % zn, "the file written for %s is not well-formed XML: %s" % (zn, ex), {"xml": j["text"], "written": open(j["write_xml"], errors="replace").read()[:3000]})
     c.cov["traces_validated_against_impl"] = ncmp
     c.cov["evaluations"] = ncmp
     c.cov["distinct_nontrivial"] = sum(1 for e in models if any(t["edges"] for t in e["m"]["templs"]))
